@@ -680,9 +680,15 @@ class TextXVisitor(RRELVisitor):
                 return
 
             if isinstance(rule, OrderedChoice):
+                # Each alternative continues from the assignments seen
+                # before the choice. What any alternative has assigned is
+                # seen by whatever follows the choice.
+                branch_sets = []
                 for on in rule.nodes:
-                    oc_branch_set = set()
-                    _update_attr_multiplicities(on, oc_branch_set, mult)
+                    branch_set = set(oc_branch_set)
+                    _update_attr_multiplicities(on, branch_set, mult)
+                    branch_sets.append(branch_set)
+                oc_branch_set.update(*branch_sets)
             else:
                 if isinstance(rule, OneOrMore):
                     mult = MULT_ONEORMORE
